@@ -77,6 +77,21 @@ extern void mpt_world_fini(MPT_STRUCT(world) *wld)
 	*wld = def_world;
 }
 
+/* replace content by a copy of the template; the target is kept when a string can not be duplicated */
+static int assignWorld(MPT_STRUCT(world) *to, const MPT_STRUCT(world) *from)
+{
+	MPT_STRUCT(world) tmp;
+	
+	mpt_world_init(&tmp, from);
+	if (from && ((from->_alias && !tmp._alias))) {
+		mpt_world_fini(&tmp);
+		return MPT_ERROR(BadOperation);
+	}
+	mpt_world_fini(to);
+	*to = tmp;
+	return 0;
+}
+
 /*!
  * \ingroup mptPlot
  * \brief set world properties
@@ -104,8 +119,9 @@ extern int mpt_world_set(MPT_STRUCT(world) *wld, const char *name, MPT_INTERFACE
 			if (len && from == wld) {
 				return 0;
 			}
-			mpt_world_fini(wld);
-			mpt_world_init(wld, len ? from : 0);
+			if ((type = assignWorld(wld, len ? from : 0)) < 0) {
+				return type;
+			}
 			return 0;
 		}
 		if ((len = mpt_string_pset(&wld->_alias, src)) >= 0) {
@@ -138,8 +154,9 @@ extern int mpt_world_set(MPT_STRUCT(world) *wld, const char *name, MPT_INTERFACE
 			if (len && from == wld) {
 				return 0;
 			}
-			mpt_world_fini(wld);
-			mpt_world_init(wld, len ? from : 0);
+			if ((type = assignWorld(wld, len ? from : 0)) < 0) {
+				return type;
+			}
 			return 0;
 		}
 		return MPT_ERROR(BadType);
